@@ -541,6 +541,45 @@ func (p *Pkg) checkSplitCouple(fd *ast.FuncDecl) (bool, string) {
 
 // checkValidate: index of value in enabled by builtin string equality, else ErrInvalidMetricValue.
 func (p *Pkg) checkValidate(fd *ast.FuncDecl) (bool, string) {
+	ok, why := p.checkValidateShape(fd)
+	if ok || fd == nil {
+		return ok, why
+	}
+	// another shape (library search, different loop): tabulate it on a synthetic list with
+	// adversarial probes; together with the deny-list (no normalising callee reachable) this
+	// is the necessary condition "index i only for the exact string L[i]"
+	list := []string{"Ab", "cD", "X", "Long"}
+	var lv []Val
+	for _, s := range list {
+		lv = append(lv, vStr(s))
+	}
+	probes := []string{"Ab", "cD", "X", "Long", "", "ab", "AB", "CD", "x", "A", "Abx", " Ab", "Ab ", "Lon", "Longer", "Lxng", "D", "XX"}
+	for _, pr := range probes {
+		v, err := newCEnv(p, nil).callFunc(fd, []Val{vStr(pr), {K: VList, T: lv}}, fd)
+		if err != nil {
+			return false, why + "; and it cannot be tabulated either: " + err.Error()
+		}
+		want := -1
+		for i, s := range list {
+			if s == pr {
+				want = i
+			}
+		}
+		if v.K != VTuple || len(v.T) != 2 {
+			return false, "validate does not return (index, error)"
+		}
+		if want >= 0 {
+			if v.T[0].K != VInt || int(v.T[0].I) != want || v.T[1].K != VNil {
+				return false, fmt.Sprintf("validate(%q) over %v returns %s, expected (%d, nil)", pr, list, v, want)
+			}
+		} else if v.T[1].K != VOpaque || v.T[1].S != "ErrInvalidMetricValue" {
+			return false, fmt.Sprintf("validate(%q) over %v returns %s, expected ErrInvalidMetricValue (a string that is not exactly a legal value is accepted or misreported)", pr, list, v)
+		}
+	}
+	return true, fmt.Sprintf("(semantic model) tabulated on %d probes over a synthetic list: index i exactly for the string L[i], ErrInvalidMetricValue for case variants, prefixes, paddings and the empty string", len(probes))
+}
+
+func (p *Pkg) checkValidateShape(fd *ast.FuncDecl) (bool, string) {
 	info := p.Info
 	if fd == nil {
 		return false, "no validate function"
@@ -765,8 +804,26 @@ func (w *World) rulesSplit(p *Pkg, m *parseModel, add func(ok bool, rule, inst s
 				}
 			}
 		}
+		// `for curr < K { … }`: cutting stops when curr reaches K
+		if fs, ok := n.(*ast.ForStmt); ok && fs.Cond != nil && K < 0 {
+			if be, ok := fs.Cond.(*ast.BinaryExpr); ok {
+				if u, ok := constUint(info, be.Y); ok && identObj(info, be.X) != nil {
+					switch be.Op {
+					case token.LSS, token.NEQ:
+						K = int(u)
+						currObj = identObj(info, be.X)
+					case token.LEQ:
+						K = int(u) + 1
+						currObj = identObj(info, be.X)
+					}
+				}
+			}
+		}
 		return true
 	})
+	if currObj != nil && !onlyIncremented(info, sfd.Body, currObj) {
+		K = -1
+	}
 	sigma := 0
 	for _, g := range vocab["20"].Groups {
 		sigma += len(g.Metrics)
@@ -782,12 +839,78 @@ func (w *World) rulesSplit(p *Pkg, m *parseModel, add func(ok bool, rule, inst s
 	for _, s := range sfd.Body.List {
 		if as, ok := s.(*ast.AssignStmt); ok && len(as.Lhs) == 1 && len(as.Rhs) == 1 {
 			ix, ok1 := as.Lhs[0].(*ast.IndexExpr)
-			sl, ok2 := as.Rhs[0].(*ast.SliceExpr)
-			if ok1 && ok2 && identObj(info, ix.X) == sp[0] && identObj(info, ix.Index) == currObj && identObj(info, sl.X) == sp[1] && sl.High == nil && sl.Low != nil {
+			if !ok1 || identObj(info, ix.X) != sp[0] || identObj(info, ix.Index) != currObj {
+				continue
+			}
+			// vector[start:] — or the parameter itself when the loop keeps
+			// only the unsplit suffix in it
+			if sl, ok2 := as.Rhs[0].(*ast.SliceExpr); ok2 && identObj(info, sl.X) == sp[1] && sl.High == nil && sl.Low != nil {
+				okRem = true
+			} else if identObj(info, as.Rhs[0]) == sp[1] && suffixOnly(info, sfd.Body, sp[1]) {
 				okRem = true
 			}
 		}
 	}
 	ok := K >= 0 && sigma-1 <= K && K <= N-1 && okRem
 	add(ok, "R01.split", "split", sfd, fmt.Sprintf("pool slice length N=%d, cutting stops at K=%d, order table has %d metrics: need Σ-1 <= K <= N-1 and the whole remainder stored in the last slot (found: remainder stored whole = %v)", N, K, sigma, okRem))
+}
+
+// onlyIncremented: the counter is never written except by `c++` (and its
+// initialisation to a constant)
+func onlyIncremented(info *types.Info, body ast.Node, c types.Object) bool {
+	ok := true
+	ast.Inspect(body, func(n ast.Node) bool {
+		switch st := n.(type) {
+		case *ast.AssignStmt:
+			for i, l := range st.Lhs {
+				if identObj(info, l) != c {
+					continue
+				}
+				if st.Tok == token.DEFINE && i < len(st.Rhs) {
+					if _, isC := constUint(info, st.Rhs[i]); isC {
+						continue
+					}
+				}
+				ok = false
+			}
+		case *ast.IncDecStmt:
+			if identObj(info, st.X) == c && st.Tok != token.INC {
+				ok = false
+			}
+		case *ast.UnaryExpr:
+			if st.Op == token.AND && identObj(info, st.X) == c {
+				ok = false
+			}
+		}
+		return true
+	})
+	return ok
+}
+
+// suffixOnly: every assignment to the string variable replaces it by a suffix
+// of itself (`s = s[i:]`), so it always holds the unconsumed remainder
+func suffixOnly(info *types.Info, body ast.Node, sv types.Object) bool {
+	ok := true
+	ast.Inspect(body, func(n ast.Node) bool {
+		switch st := n.(type) {
+		case *ast.AssignStmt:
+			for i, l := range st.Lhs {
+				if identObj(info, l) != sv {
+					continue
+				}
+				if len(st.Lhs) == len(st.Rhs) {
+					if sl, isS := st.Rhs[i].(*ast.SliceExpr); isS && identObj(info, sl.X) == sv && sl.High == nil && sl.Low != nil {
+						continue
+					}
+				}
+				ok = false
+			}
+		case *ast.UnaryExpr:
+			if st.Op == token.AND && identObj(info, st.X) == sv {
+				ok = false
+			}
+		}
+		return true
+	})
+	return ok
 }
